@@ -276,6 +276,10 @@ func checkRepliesOwnInOrder(e *env, prop string, faultFree bool) {
 					out.notJudged("reply-not-a-function-of-argv")
 					continue
 				}
+				if !faultFree && r.V.T == '-' && strings.HasPrefix(r.V.S, "LOADING") {
+					out.judged("loading-error-returned-as-is")
+					continue
+				}
 				if want := normalize(exp, proto); !valEqual(want, r.V) {
 					out.violate(prop, "wrong-reply", "task %d call %d cmd %d %q: got %s want %s", task, rec.Index, i, truncArgv(argv), truncStr(r.V.String(), 300), truncStr(want.String(), 300))
 				} else {
@@ -296,7 +300,7 @@ func checkRepliesOwnInOrder(e *env, prop string, faultFree bool) {
 		}
 	}
 	// server-side view: per connection, each task's commands arrive in issue order; unique commands execute once
-	type pos struct{ call, k int }
+	type pos = struct{ call, k int }
 	last := map[string]pos{} // conn|task -> last position
 	count := map[string]int{}
 	for _, ex := range e.sim.W.Log {
@@ -313,7 +317,8 @@ func checkRepliesOwnInOrder(e *env, prop string, faultFree bool) {
 		}
 		count[uid]++
 		key := fmt.Sprintf("%d|%d", ex.Conn, task)
-		if lp, seen := last[key]; seen && (call < lp.call || (call == lp.call && k <= lp.k)) {
+		resend := !faultFree && call == lp0(last, key).call && k <= lp0(last, key).k // a retried call re-sends its commands
+		if lp, seen := last[key]; seen && !resend && (call < lp.call || (call == lp.call && k <= lp.k)) {
 			out.violate(prop, "order", "connection %d received task %d's command %s after its later command c%d.k%d", ex.Conn, task, uid, lp.call, lp.k)
 		}
 		last[key] = pos{call, k}
@@ -346,6 +351,8 @@ func checkRepliesOwnInOrder(e *env, prop string, faultFree bool) {
 		out.probe("push-frames-on-wire")
 	}
 }
+
+func lp0(m map[string]struct{ call, k int }, key string) struct{ call, k int } { return m[key] }
 
 func truncStr(s string, n int) string {
 	if len(s) > n {
